@@ -786,3 +786,234 @@ Proof.
 Qed.
 
 End UnionTotal.
+
+(* ====================================================================== AutosarModel::load_buffer, unconditionally *)
+Section BufTotal.
+Variable T : tables.
+Variables tab_el tab_at tab_en : nametab.
+Variable check_fn : N -> list N -> res bool.
+Variable float_parse : list N -> option N.
+Variables LATEST defref v : N.
+
+(* a successful load_parsed registers the file and appends its id to the file list of the model [U] *)
+Lemma load_parsed_ok_files m filename root st w x f w' :
+  nth_opt (w_models w) (N.to_nat m) = Some x ->
+  load_parsed T LATEST defref m filename root st w = Val (OK f, w') ->
+  let fid := N.of_nat (List.length (w_files w)) in
+  f = fid /\ w_files w' = w_files w ++ [mkFile m filename (Parser.p_version st) (Parser.p_standalone st)] /\
+  exists x', nth_opt (w_models w') (N.to_nat m) = Some x' /\ m_files x' = m_files x ++ [fid].
+Proof.
+  intros Hx H fid.
+  destruct (load_parsed_prefix T LATEST defref m filename root st w (OK f) w' x H Hx)
+    as [E|(t & w1 & tb & A1 & _ & _ & _ & _ & _ & _ & _ & Ht)]; [discriminate E|].
+  fold fid in Ht. set (fl := mkFile m filename (Parser.p_version st) (Parser.p_standalone st)) in *.
+  set (w1' := mkWorld _ _ _ _) in Ht. destruct A1 as (_ & _ & A13 & A14).
+  assert (Hx1 : nth_opt (w_models w1') (N.to_nat m) = Some x) by (cbn; rewrite A14; exact Hx).
+  unfold load_tail in Ht.
+  apply wbind_inv in Ht as [(r0 & w4 & H1 & Ht) | (e' & H1 & _)]; [|apply wcatch_inv in H1 as (? & _ & [=])].
+  apply wcatch_inv in H1 as (r1 & H1 & [= ->]).
+  apply wbind_inv in Ht as [(x3 & w5 & H5 & Ht) | (e' & H5 & _)]; [|apply get_model_inv in H5 as (? & _ & [=] & _)].
+  apply get_model_inv in H5 as (x3' & Hx3 & [= <-] & ->).
+  apply wbind_inv in Ht as [(w3 & w5 & H6 & Ht) | (e' & H6 & _)]; [|apply wget_inv in H6 as ([=] & _)].
+  apply wget_inv in H6 as (_ & ->).
+  apply wbind_inv in Ht as [(keep & w5 & H7 & Ht) | (e' & H7 & _)]; [|eapply (errs_dfs_ids (fun _ => False)) in H7; destruct H7].
+  apply ro_dfs_ids in H7. subst w5.
+  apply wbind_inv in Ht as [(u & w6 & H8 & Ht) | (e' & H8 & _)]; [|unfold kill_unreachable in H8; discriminate].
+  apply kill_unreachable_keep in H8 as (_ & K1 & K2 & K3 & _).
+  destruct r1 as [u1|e1].
+  2:{ apply wbind_inv in Ht as [(u2 & w7 & H9 & Ht) | (e' & H9 & _)]; [apply wfail_inv in Ht as ([=] & _)|unfold drop_file in H9; discriminate]. }
+  apply wret_inv in Ht as ([= ->] & ->).
+  (* the stage and the fills *)
+  apply wbind_inv in H1 as [(us & wS & Hs & H1) | (e' & Hs & [=])].
+  assert (GS : w_files wS = w_files w1' /\ exists xs, nth_opt (w_models wS) (N.to_nat m) = Some xs /\ m_files xs = m_files x).
+  { unfold stage_of in Hs. destruct (is_empty (m_files x)).
+    - apply wbind_inv in Hs as [(u2 & wa & Ha & Hs) | (e' & Ha & [=])].
+      apply modify_node_inv in Ha as (na & _ & _ & ->).
+      apply wbind_inv in Hs as [(u3 & wb & Hb & Hs) | (e' & Hb & [=])].
+      apply modify_node_inv in Hb as (nb & _ & _ & ->).
+      apply modify_model_inv in Hs as (xm & Hxm & _ & ->). cbn [w_files w_models] in *.
+      split; [reflexivity|]. rewrite Hx1 in Hxm. injection Hxm as <-. eexists. split; [eapply list_set_nth_eq; exact Hx1|reflexivity].
+    - apply wbind_inv in Hs as [(mr & wM & Hm1 & Hm2) | (e' & Hm1 & _)]; [|apply wcatch_inv in Hm1 as (? & _ & [=])].
+      apply wcatch_inv in Hm1 as (r2 & Hm1 & [= ->]).
+      destruct r2 as [u2|e2].
+      + apply wret_inv in Hm2 as (_ & ->).
+        pose proof (merge_file_data_effects T LATEST defref m _ _ _ _ _ Hm1) as (_ & E2 & E3 & _).
+        split; [exact E2|]. exists x. rewrite E3. auto.
+      + exfalso. apply wbind_inv in Hm2 as [(x1 & wd & Hd1 & Hd2) | (e' & Hd1 & [=])].
+        apply wbind_inv in Hd2 as [(o & we & He1 & He2) | (e' & He1 & [=])]. apply wfail_inv in He2 as ([=] & _). }
+  destruct GS as (GS1 & xs & Hxs & Efs).
+  apply wbind_inv in H1 as [(u4 & wa & Ha & H1) | (e' & Ha & [=])].
+  apply MOnly_fill_identifiables in Ha as (_ & Ma).
+  apply wbind_inv in H1 as [(u5 & wb & Hb & H1) | (e' & Hb & [=])].
+  apply MOnly_fill_references in Hb as (_ & Mb).
+  pose proof (MOnly_trans _ _ _ _ Ma Mb) as (B1 & B2 & B3 & B4).
+  destruct (B4 xs Hxs) as (xb & Hxb & _ & Ef).
+  apply modify_model_inv in H1 as (xb' & Hxb' & _ & ->). rewrite Hxb in Hxb'. injection Hxb' as <-.
+  cbn [w_files w_models] in *.
+  split; [reflexivity|]. split; [rewrite K2, B3, GS1; cbn [w_files w1']; rewrite A13; reflexivity|].
+  rewrite K3. eexists. split; [eapply list_set_nth_eq; exact Hxb|]. cbn. rewrite Ef, Efs. reflexivity.
+Qed.
+
+(* the names of the files of model m *)
+Definition NamesInv (w : world) (m : N) (names : list (list N)) : Prop :=
+  exists x, nth_opt (w_models w) (N.to_nat m) = Some x /\
+    forall f, In f (m_files x) -> exists fl, nth_opt (w_files w) (N.to_nat f) = Some fl /\ In (f_name fl) names.
+
+(* with distinct file names, the loads of the buffers are the loads of the parsed files *)
+Lemma load_bufs_of_seq m strict : forall bufs items w os0 w' names,
+  Forall2 (parses_to T tab_el tab_at tab_en check_fn float_parse strict) bufs items ->
+  load_seq T LATEST defref m items w = Val (os0, w') -> Forall (fun o => exists f, o = OK f) os0 ->
+  NamesInv w m names -> NoDup (names ++ map snd bufs) ->
+  exists os, load_bufs T tab_el tab_at tab_en check_fn float_parse LATEST defref m strict bufs w = Val (os, w') /\
+             Forall2 (lifts) os os0.
+Proof.
+  induction bufs as [|[buf fname] bufs IH]; intros items w os0 w' names HF HL HO HN Hnd;
+    inversion HF as [|? [[fn e] st] ? items' (Hp & Hn) HF']; subst.
+  - cbn [load_seq] in HL. injection HL as <- <-. exists []. split; [reflexivity|constructor].
+  - cbn [fst snd] in Hp, Hn. subst fn. cbn [load_seq] in HL.
+    destruct (load_parsed T LATEST defref m fname e st w) as [[o w1]| |] eqn:EL; try discriminate.
+    destruct (load_seq T LATEST defref m items' w1) as [[os1 w2]| |] eqn:EL2; try discriminate.
+    injection HL as <- <-. inversion HO as [|? ? (f & ->) HO1]; subst.
+    destruct HN as (x & Hx & HNx).
+    destruct (load_parsed_ok_files m fname e st w x f w1 Hx EL) as (-> & Hf1 & x1 & Hx1 & Ef1).
+    assert (HN1 : NamesInv w1 m (names ++ [fname])).
+    { exists x1. split; [exact Hx1|]. intros f0 Hf0. rewrite Ef1 in Hf0. rewrite Hf1. apply in_app_or in Hf0 as [Hf0|[<-|[]]].
+      - destruct (HNx f0 Hf0) as (fl0 & Hfl0 & Hin0). exists fl0. split; [|apply in_or_app; left; exact Hin0].
+        rewrite nth_opt_nth_error in *. rewrite nth_error_app1; [exact Hfl0|]. apply nth_error_Some. congruence.
+      - eexists. split; [rewrite nth_opt_nth_error, Nat2N.id, nth_error_app2 by lia; rewrite PeanoNat.Nat.sub_diag; reflexivity|].
+        cbn [f_name]. apply in_or_app. right. left. reflexivity. }
+    destruct (IH items' w1 os1 w2 (names ++ [fname]) HF' EL2 HO1 HN1) as (os & E & FL).
+    { cbn [map snd] in Hnd. rewrite <- app_assoc. exact Hnd. }
+    assert (Hdup : existsb (fun f0 => match nth_opt (w_files w) (N.to_nat f0) with Some fl0 => bytes_eqb (f_name fl0) fname | None => false end)
+                          (m_files x) = false).
+    { destruct (existsb _ (m_files x)) eqn:Ee; [|reflexivity]. exfalso.
+      apply existsb_exists in Ee as (f0 & Hf0 & Eb). destruct (HNx f0 Hf0) as (fl0 & Hfl0 & Hin0). rewrite Hfl0 in Eb.
+      apply bytes_eqb_spec in Eb. rewrite Eb in Hin0. cbn [map snd] in Hnd.
+      apply NoDup_remove_2 in Hnd. apply Hnd. apply in_or_app. left. exact Hin0. }
+    exists (OK (N.of_nat (List.length (w_files w)), rev (Parser.p_warnings st)) :: os). split.
+    + cbn [load_bufs]. unfold m_load_buffer. unfold wbind at 1. unfold get_model at 1. rewrite Hx.
+      unfold wbind at 1. cbn [wget]. rewrite Hdup, Hp. unfold wbind at 1. rewrite EL. cbn [wret]. rewrite E. reflexivity.
+    + constructor; [eexists; reflexivity|exact FL].
+Qed.
+
+(* C09 for AutosarModel::load_buffer, class Good, unconditionally: EVERY load returns OK with its file id *)
+Theorem heap_union_buffers_total M m x w0 n strict bufs items :
+  Good T defref v M ->
+  nth_opt (w_models w0) (N.to_nat m) = Some x -> m_files x = [] -> m_idents x = [] ->
+  let gs := n_range (S n) (N.of_nat (List.length (w_files w0))) in
+  Forall2 (parses_to T tab_el tab_at tab_en check_fn float_parse strict) bufs items ->
+  Forall2 (fun g it => is_view v M g it /\ StOf T (snd it) (snd (fst it))) gs items ->
+  NoDup (map snd bufs) ->
+  (forall g, In g gs -> In g (mfiles M)) -> PathsOK T M gs ->
+  exists os w,
+    load_bufs T tab_el tab_at tab_en check_fn float_parse LATEST defref m strict bufs w0 = Val (os, w) /\
+    Forall2 (fun g o => exists ws, o = OK (g, ws)) gs os /\
+    exists ta, ModelTree w m ta gs /\ abs_model w m = Some (erase ta) /\
+               Rep T (rev gs) None M (erase ta) /\
+               (covers gs M -> hperm (erase ta) (expected None M)) /\
+               (forall f, In f gs -> hperm (hproj f (erase ta)) (pview f M)).
+Proof.
+  intros HG Hx Hfx Hix gs Hparse Hview Hnd Hin HP.
+  destruct (heap_union_total T LATEST defref v M m x w0 n items HG Hx Hfx Hix Hview Hin HP) as (os0 & w & EL & FO & Hta).
+  assert (HO : Forall (fun o => exists f, o = OK f) os0).
+  { clear -FO. induction FO as [|g o gs1 os1 -> HF IH]; constructor; eauto. }
+  destruct (load_bufs_of_seq m strict bufs items w0 os0 w [] Hparse EL HO) as (os & E & FL).
+  { exists x. split; [exact Hx|]. rewrite Hfx. intros f []. }
+  { exact Hnd. }
+  exists os, w. split; [exact E|]. split; [|exact Hta].
+  fold gs in FO. clear -FO FL. revert os FL. induction FO as [|g o0 gs' os0 -> F1 IH]; intros os FL; inversion FL as [|o ? os' ? Hl FL']; subst.
+  - constructor.
+  - constructor; [exact Hl|apply IH; exact FL'].
+Qed.
+
+End BufTotal.
+
+(* the load sequence C09_full is phrased with (the parser state is MergeSpec.pstate_of) *)
+Section ViewsTotal.
+Variable T : tables.
+Variables LATEST defref v : N.
+
+Lemma load_views_items M m : forall gs,
+  (forall g, In g gs -> In g (mfiles M)) ->
+  exists items, Forall2 (fun g it => is_view v M g it /\ StOf T (snd it) (snd (fst it))) gs items /\
+                forall w, load_views T LATEST defref m M (fun _ => v) gs w = load_seq T LATEST defref m items w.
+Proof.
+  induction gs as [|g gs IH]; intros Hin.
+  - exists []. split; [constructor|reflexivity].
+  - destruct IH as (items & HF & HE); [intros g0 H0; apply Hin; right; exact H0|].
+    destruct (project_some g M (proj2 (set_mem_in _ _) (Hin g (or_introl eq_refl)))) as (e & He).
+    exists ((to_dec g, e, pstate_of T v e) :: items). split.
+    + constructor; [|exact HF]. split; [split; [exact He|reflexivity]|split; reflexivity].
+    + intros w. cbn [load_views load_seq]. rewrite He.
+      destruct (load_parsed T LATEST defref m (to_dec g) e (pstate_of T v e) w) as [[o w1]| |]; try reflexivity. rewrite HE. reflexivity.
+Qed.
+
+Theorem heap_union_views_total M m x w0 n :
+  Good T defref v M ->
+  nth_opt (w_models w0) (N.to_nat m) = Some x -> m_files x = [] -> m_idents x = [] ->
+  let gs := n_range (S n) (N.of_nat (List.length (w_files w0))) in
+  (forall g, In g gs -> In g (mfiles M)) -> PathsOK T M gs ->
+  exists os w,
+    load_views T LATEST defref m M (fun _ => v) gs w0 = Val (os, w) /\ Forall2 (fun g o => o = OK g) gs os /\
+    exists ta, ModelTree w m ta gs /\ abs_model w m = Some (erase ta) /\
+               Rep T (rev gs) None M (erase ta) /\
+               (covers gs M -> hperm (erase ta) (expected None M)) /\
+               (forall f, In f gs -> hperm (hproj f (erase ta)) (pview f M)).
+Proof.
+  intros HG Hx Hfx Hix gs Hin HP.
+  destruct (load_views_items M m gs Hin) as (items & HF & HE). rewrite HE.
+  exact (heap_union_total T LATEST defref v M m x w0 n items HG Hx Hfx Hix HF Hin HP).
+Qed.
+
+End ViewsTotal.
+
+(* ------------------------------------------------------------------ the side condition is decidable; the tiny master has it *)
+Definition functionalb (S : list (list N * N)) : bool :=
+  forallb (fun p => forallb (fun q => implb (bytes_eqb (fst p) (fst q)) (snd p =? snd q)) S) S.
+Lemma functionalb_sound S : functionalb S = true -> Functional S.
+Proof.
+  unfold functionalb. rewrite forallb_forall. intros H k n n' H1 H2. specialize (H (k, n) H1).
+  rewrite forallb_forall in H. specialize (H (k, n') H2). cbn [fst snd] in H. rewrite bytes_eqb_refl in H. cbn [implb] in H.
+  apply N.eqb_eq. exact H.
+Qed.
+Fixpoint keys_nodupb (l : list (list N)) : bool :=
+  match l with [] => true | k :: r => negb (existsb (bytes_eqb k) r) && keys_nodupb r end.
+Lemma keys_nodupb_sound l : keys_nodupb l = true -> NoDup l.
+Proof.
+  induction l as [|k r IH]; cbn [keys_nodupb]; [constructor|]. intros H. apply andb_true_iff in H as [H1 H2].
+  constructor; [|apply IH; exact H2]. intros Hin. apply negb_true_iff in H1.
+  assert (E : existsb (bytes_eqb k) r = true) by (apply existsb_exists; exists k; split; [exact Hin|apply bytes_eqb_refl]). congruence.
+Qed.
+
+Definition paths_okb (T : tables) (M : mtree) (gs : list N) : bool :=
+  functionalb (all_names T M gs) &&
+  forallb (fun g => match project g M with
+                    | Some e => keys_nodupb (map (fun y => fst (fst y)) (enames T [] [] e))
+                    | None => true end) gs.
+Lemma paths_okb_sound T M gs : paths_okb T M gs = true -> PathsOK T M gs.
+Proof.
+  unfold paths_okb. intros H. apply andb_true_iff in H as [H1 H2]. split; [apply functionalb_sound; exact H1|].
+  rewrite forallb_forall in H2. intros g e Hg He. specialize (H2 g Hg). rewrite He in H2. apply keys_nodupb_sound. exact H2.
+Qed.
+
+Example tiny_paths_ok : PathsOK TinyM.tiny TinyM.master [0; 1].
+Proof. apply paths_okb_sound. vm_compute. reflexivity. Qed.
+
+(* the unconditional theorem, instantiated: the two views of the tiny master load and give the master *)
+Example tiny_union_total :
+  exists os w,
+    load_views TinyM.tiny TinyM.LATEST TinyM.DEFREF 0 TinyM.master (fun _ => 2) [0; 1] TinyM.new_world = Val (os, w) /\
+    Forall2 (fun g o => o = OK g) [0; 1] os /\
+    exists ta, abs_model w 0 = Some (erase ta) /\ hperm (erase ta) (expected None TinyM.master).
+Proof.
+  destruct (heap_union_views_total TinyM.tiny TinyM.LATEST TinyM.DEFREF 2 TinyM.master 0
+              (mkModel 0 [] [] []) TinyM.new_world 1) as (os & w & E & F & ta & _ & Ha & _ & Hc & _).
+  - exact TinyGood.master_good.
+  - vm_compute. reflexivity.
+  - reflexivity.
+  - reflexivity.
+  - intros g [<-|[<-|[]]]; vm_compute; auto.
+  - exact tiny_paths_ok.
+  - exists os, w. split; [exact E|]. split; [exact F|]. exists ta. split; [exact Ha|]. apply Hc.
+    vm_compute. intuition.
+Qed.
